@@ -15,12 +15,20 @@
 (*                                the probe program: initialiser of a      *)
 (*                                var<private>, expression in the entry    *)
 (*                                point's body                             *)
-(*   ChooseK(cls, mode)           one per override: the class of the value *)
-(*                                K supplies (or "absent") and how it is   *)
+(*   ChooseK(cls, mode, use)      one per override: the class of the value *)
+(*                                K supplies (or "absent"), how it is      *)
 (*                                keyed ("key": by the identifier string;  *)
 (*                                "name_on_id": by the name although the   *)
 (*                                override has an @id; "both": id and name *)
-(*                                with different values)                   *)
+(*                                with different values) and how the probe *)
+(*                                program uses the override: "body" (the   *)
+(*                                entry point stores it), "global" (only   *)
+(*                                the initialiser of a var<private> names  *)
+(*                                it; the entry point stores the variable),*)
+(*                                "hidden" (no function and no variable    *)
+(*                                names it: it is used only through        *)
+(*                                another override's default, only as      *)
+(*                                @workgroup_size, or not at all)          *)
 (*   ChooseWg(w, extra)           which override sizes the workgroup, an   *)
 (*                                extra key naming no override             *)
 (*   Layout(perm)                 declaration order (a permutation: that   *)
@@ -46,6 +54,7 @@ CONSTANTS MinN, MaxN,   \* number of overrides
           KClasses,     \* "none" | "ok" | "few" (absent, ok, 6th class) | "mix" (+ 3rd class) | "all"
           KModes,       \* subset of {"key", "name_on_id", "both"}
           Orders,       \* "id" | "rev" | "all"
+          Uses,         \* subset of {"body", "global", "hidden"}: how the probe program uses each override (see ChooseK)
           WgModes,      \* subset of {0, 1}: 1 = an integer override is the x workgroup size
           Extras,       \* subset of {0, 1}: 1 = K has a key that names no override
           SameType,     \* all overrides have the type of the first
@@ -163,7 +172,7 @@ ClassIdx(T) == CASE KClasses = "none" -> {0} [] KClasses = "ok" -> {0, 1} [] KCl
 VARIABLES ds,      \* declarations in the order they were added (dependency order)
           pend,    \* <<type, hasId, family>> chosen for the next declaration / derived expression, or <<>>
           dv,      \* derived expression or None
-          ks,      \* per override <<class index (0 = absent), mode>>
+          ks,      \* per override <<class index (0 = absent), mode, use>>
           lay,     \* <<permutation, wg override index or 0, extra>>
           phase,   \* "decl" | "derived" | "k" | "lay" | "ord" | "done"
           h        \* running hash of the choices (sharding)
@@ -214,12 +223,14 @@ AddDerived(si, e) ==
 ModesFor(d, ci) == IF ci = 0 THEN {"key"} ELSE IF d.id >= 0 THEN KModes ELSE {"key"}
 ModeIdx(m) == CASE m = "key" -> 1 [] m = "name_on_id" -> 2 [] OTHER -> 3
 
-ChooseK(ci, mode) ==
+UseIdx(u) == CASE u = "body" -> 0 [] u = "global" -> 1 [] OTHER -> 2
+
+ChooseK(ci, mode, use) ==
   /\ phase = "k" /\ Len(ks) < Len(ds)
   /\ LET d == ds[Len(ks) + 1] IN ci \in ClassIdx(d.ty.k) /\ mode \in ModesFor(d, ci)
-  /\ ks' = Append(ks, <<ci, mode>>)
+  /\ ks' = Append(ks, <<ci, mode, use>>)
   /\ phase' = IF Len(ks) + 1 = Len(ds) THEN "lay" ELSE "k"
-  /\ h' = Mix(h, ci * 4 + ModeIdx(mode))
+  /\ h' = Mix(h, ci * 16 + ModeIdx(mode) * 4 + UseIdx(use))
   /\ UNCHANGED <<ds, pend, dv, lay>>
 
 PermSeq(n) == SetToSeq(CASE Orders = "id" -> {[i \in 1 .. n |-> i]}
@@ -248,7 +259,7 @@ Next == \/ \E T \in Types, hasId \in IdChoices(Len(ds) + 1), fam \in Fams : Pick
         \/ \E T \in {"bool", "i32", "u32", "f32"}, fam \in DFams : PickDerivedKind(T, fam)
         \/ (phase = "derived" /\ pend # <<>> /\
             LET ss == SetToSeq(DerivedSet(pend[1], pend[3])) IN \E si \in 1 .. Len(ss) : AddDerived(si, ss[si]))
-        \/ (phase = "k" /\ \E ci \in 0 .. 16, mode \in {"key", "name_on_id", "both"} : ChooseK(ci, mode))
+        \/ (phase = "k" /\ \E ci \in 0 .. 16, mode \in {"key", "name_on_id", "both"}, use \in Uses : ChooseK(ci, mode, use))
         \/ (phase = "lay" /\ \E w \in (IF WgChoices = {} THEN {0} ELSE WgChoices), x \in Extras : ChooseWg(w, x))
         \/ (phase = "ord" /\ LET ps == PermSeq(Len(ds)) IN \E pi \in 1 .. Len(ps) : Layout(pi, ps[pi]))
 Spec == Init /\ [][Next]_vars
@@ -283,22 +294,42 @@ OutRef(i) == [k |-> "ridx", t |-> TU, b |-> [k |-> "rvar", n |-> "out", t |-> Ar
 StoreOut(i, T, x) == [k |-> "asg", r |-> OutRef(i), e |-> Bits(T, x)]
 GLoad(T) == [k |-> "load", t |-> Ty(T), r |-> [k |-> "rvar", n |-> "g", t |-> Ty(T)]]
 
-\* the probe program; dexp is the derived expression as it appears in the program
-Prog(dexp) ==
+\* how the i-th added override is used, and the variable that carries a "global" use
+UseOf(i) == ks[i][3]
+GName(i) == CASE i = 1 -> "g1" [] i = 2 -> "g2" [] i = 3 -> "g3" [] OTHER -> "g4"
+\* initialiser of that variable: the override itself (bool) or a product with it, as in `var<private> g = gain * 10.0`
+GExpr(i) == LET T == ds[i].ty.k  o == IdE(ds[i].name, T) IN
+            IF T = "bool" THEN o ELSE Bin("*", T, o, Lit(T, CASE T = "f32" -> 1073741824 [] OTHER -> 4))     \* * 4, * 2.0
+GLoadN(n, T) == [k |-> "load", t |-> Ty(T), r |-> [k |-> "rvar", n |-> n, t |-> Ty(T)]]
+RECURSIVE FlatCat(_, _)
+FlatCat(f, i) == IF i > Len(ds) THEN <<>> ELSE f[i] \o FlatCat(f, i + 1)
+
+\* the probe program; dexp is the derived expression as it appears in the program, gx[i] the initialiser of the variable of a
+\* "global" use
+Prog(dexp, gx) ==
   LET n == Len(ds)
-      ovStores == [i \in 1 .. n |-> StoreOut(i - 1, ds[i].ty.k, IdE(ds[i].name, ds[i].ty.k))]
+      ovStores == FlatCat([i \in 1 .. n |->
+                    CASE UseOf(i) = "body"   -> <<StoreOut(i - 1, ds[i].ty.k, IdE(ds[i].name, ds[i].ty.k))>>
+                      [] UseOf(i) = "global" -> <<StoreOut(i - 1, ds[i].ty.k, GLoadN(GName(i), ds[i].ty.k))>>
+                      [] OTHER -> <<>>], 1)
+      gVars == FlatCat([i \in 1 .. n |->
+                    IF UseOf(i) = "global"
+                    THEN <<[name |-> GName(i), space |-> "private", access |-> "", ty |-> ds[i].ty, group |-> 0, binding |-> 0, init |-> gx[i]]>>
+                    ELSE <<>>], 1)
       dStores == IF dexp.k = "none" THEN <<>>
                  ELSE <<StoreOut(n, dexp.t.k, GLoad(dexp.t.k)), StoreOut(n + 1, dexp.t.k, dexp)>>
       wgx == IF lay[2] = 0 THEN None ELSE IdE(ds[lay[2]].name, ds[lay[2]].ty.k)
   IN  [structs |-> <<>>, consts |-> ModuleConsts, overrides |-> PDs,
        globals |-> <<[name |-> "out", space |-> "storage", access |-> "rw", ty |-> ArrT, group |-> 0, binding |-> 0, init |-> None]>>
                    \o (IF dexp.k = "none" THEN <<>>
-                       ELSE <<[name |-> "g", space |-> "private", access |-> "", ty |-> dexp.t, group |-> 0, binding |-> 0, init |-> dexp]>>),
+                       ELSE <<[name |-> "g", space |-> "private", access |-> "", ty |-> dexp.t, group |-> 0, binding |-> 0, init |-> dexp]>>)
+                   \o gVars,
        fns |-> <<[name |-> "main", params |-> <<>>, ret |-> [k |-> "void"], entry |-> 1, wg |-> <<1, 1, 1>>, wgx |-> wgx,
                   body |-> ovStores \o dStores]>>]
+GInits == [i \in 1 .. Len(ds) |-> GExpr(i)]
 
-\* Everything below is parameterised by the resolved values (r, in declaration order), the derived expression's value (dr)
-\* and the run of the abstract machine (rr): each is mentioned once at the bottom (TLC's level analysis walks a definition
+\* Everything below is parameterised by the resolved values (r, in declaration order), the derived expression's value (dr),
+\* the values of the initialisers of the "global" uses (gr) and the run of the abstract machine (rr): each is mentioned once at the bottom (TLC's level analysis walks a definition
 \* once per textual mention).
 RAof(r, i) == r[CHOOSE j \in 1 .. Len(ds) : Perm[j] = i]     \* of the i-th added override
 WgOf(r) == IF lay[2] = 0 THEN V(1)
@@ -308,29 +339,45 @@ WgOf(r) == IF lay[2] = 0 THEN V(1)
 \* the program given to the abstract machine: a derived expression the standards leave open is replaced by a zero (its words
 \* are masked), so that the other words are still predicted
 ZeroLit(T) == Lit(T, 0)
-OracleProg(dr) == Prog(IF dv.k = "none" THEN None ELSE IF Usable(dr) THEN dv ELSE ZeroLit(dv.t.k))
-Input == IF dv.k = "none" THEN <<[i \in 1 .. NOut |-> 0]>> ELSE <<[i \in 1 .. NOut |-> 0], <<>>>>
+OracleProg(dr, gr) == Prog(IF dv.k = "none" THEN None ELSE IF Usable(dr) THEN dv ELSE ZeroLit(dv.t.k),
+                           [i \in 1 .. Len(ds) |-> IF Usable(gr[i]) THEN GExpr(i) ELSE ZeroLit(ds[i].ty.k)])
+NGlobalUses == Cardinality({i \in 1 .. Len(ds) : UseOf(i) = "global"})
+Input == <<[i \in 1 .. NOut |-> 0]>> \o [i \in 1 .. (IF dv.k = "none" THEN 0 ELSE 1) + NGlobalUses |-> <<>>]
 
 TagSeq(s) == SetToSeq(s)
 SlotOf(ix, kind, name, ty, x) == [ix |-> ix, kind |-> kind, name |-> name, ty |-> ty, st |-> x.st, v |-> IF Usable(x) THEN x.v ELSE 0,
                                   tags |-> TagSeq(x.tg)]
-SlotsOf(r, dr) ==
-  [i \in 1 .. Len(ds) |-> SlotOf(i - 1, "override", ds[i].name, ds[i].ty.k, RAof(r, i))]
+SlotsOf(r, dr, gr) ==
+  FlatCat([i \in 1 .. Len(ds) |->
+              CASE UseOf(i) = "body"   -> <<SlotOf(i - 1, "override", ds[i].name, ds[i].ty.k, RAof(r, i))>>
+                [] UseOf(i) = "global" -> <<SlotOf(i - 1, "global", GName(i), ds[i].ty.k, gr[i])>>
+                [] OTHER -> <<>>], 1)
   \o (IF dv.k = "none" THEN <<>>
       ELSE <<SlotOf(Len(ds), "global", "g", dv.t.k, dr), SlotOf(Len(ds) + 1, "body", "", dv.t.k, dr)>>)
 
+\* what the pipeline uses: the overrides a function names, the initialisers of the variables the entry point stores, the derived
+\* expression, the workgroup size.  Evaluating them reaches, through the defaults, everything else that is used (Overrides.tla, R6).
+RootsOf(r, dr, gr) ==
+  {RAof(r, i) : i \in {j \in 1 .. Len(ds) : UseOf(j) = "body"}}
+  \cup {gr[i] : i \in {j \in 1 .. Len(ds) : UseOf(j) = "global"}}
+  \cup (IF dv.k = "none" THEN {} ELSE {dr})
+  \cup (IF lay[2] = 0 THEN {} ELSE {RAof(r, lay[2])})
+UseTags == {"use:" \o UseOf(i) : i \in 1 .. Len(ds)}
+
 KeyTags == {IF ks[i][1] = 0 THEN "key:absent" ELSE "key:" \o ks[i][2] : i \in 1 .. Len(ds)} \cup (IF lay[3] = 1 THEN {"key:extra"} ELSE {})
 
-CaseOf(r, dr, rr) ==
-  LET wgr == WgOf(r) IN
-  [h |-> h, prog |-> Prog(dv),
+CaseOf(r, dr, gr, rr) ==
+  LET wgr == WgOf(r)
+      roots == RootsOf(r, dr, gr)
+  IN
+  [h |-> h, prog |-> Prog(dv, GInits),
    K |-> [i \in 1 .. Len(KMap) |-> [key |-> KMap[i].key, c |-> KMap[i].v.c, s |-> KMap[i].v.s, m |-> KMap[i].v.m, e |-> KMap[i].v.e,
                                      cls |-> KMap[i].v.cls]],
-   slots |-> SlotsOf(r, dr),
-   errreq |-> \E i \in 1 .. Len(ds) : r[i].st = "err",
-   errok |-> InvalidKeys(PDs, KMap) # {} \/ \E i \in 1 .. Len(ds) : r[i].st # "val",
-   errtags |-> TagSeq(UNION {r[i].tg : i \in {j \in 1 .. Len(ds) : r[j].st = "err"}}),
-   alltags |-> TagSeq(UNION {r[i].tg : i \in 1 .. Len(ds)} \cup (IF dv.k = "none" THEN {} ELSE dr.tg) \cup KeyTags),
+   slots |-> SlotsOf(r, dr, gr),
+   errreq |-> ErrRequiredOf(roots),
+   errok |-> InvalidKeys(PDs, KMap) # {} \/ ErrAcceptableOf(roots \cup {r[i] : i \in 1 .. Len(ds)}),
+   errtags |-> TagSeq(UNION {x.tg : x \in {y \in roots : y.st = "err"}}),
+   alltags |-> TagSeq(UNION {r[i].tg : i \in 1 .. Len(ds)} \cup (IF dv.k = "none" THEN {} ELSE dr.tg) \cup KeyTags \cup UseTags),
    wg |-> [st |-> wgr.st, x |-> IF Usable(wgr) THEN wgr.v ELSE 0, tags |-> TagSeq(wgr.tg), used |-> IF lay[2] = 0 THEN 0 ELSE 1],
    ok |-> rr.ok, why |-> rr.why, out |-> IF rr.ok THEN rr.out[1] ELSE <<>>]
 
@@ -339,9 +386,10 @@ AgreeOf(slots, rr) == rr.ok => \A i \in 1 .. Len(slots) : slots[i].st \in {"val"
 
 R == Resolve(PDs, CE, KMap)                       \* in declaration order
 DRof == IF dv.k = "none" THEN V(0) ELSE Derived(PDs, CE, KMap, dv)
-RunOf(r, dr) == Run(Subst(OracleProg(dr), r), Input)
-FinalOf(r, dr) == LET rr == RunOf(r, dr) IN <<AgreeOf(SlotsOf(r, dr), rr), CaseOf(r, dr, rr)>>
-Final == FinalOf(R, DRof)
+GRof == [i \in 1 .. Len(ds) |-> IF UseOf(i) = "global" THEN Derived(PDs, CE, KMap, GExpr(i)) ELSE V(0)]
+RunOf(r, dr, gr) == Run(Subst(OracleProg(dr, gr), r), Input)
+FinalOf(r, dr, gr) == LET rr == RunOf(r, dr, gr) IN <<AgreeOf(SlotsOf(r, dr, gr), rr), CaseOf(r, dr, gr, rr)>>
+Final == FinalOf(R, DRof, GRof)
 
 \* ---- what TLC checks on every case ------------------------------------------------------
 L1 == Done => OrderIndependent(PDs, CE, KMap)
